@@ -252,8 +252,8 @@ func ruleRegexAtoms(c *Ctx, rule string) {
 	r := c.R
 	type atom struct {
 		fnName, key, typ string
-		fields         map[string]string
-		desc           string
+		fields           map[string]string
+		desc             string
 	}
 	cls := func(name string) string {
 		k := c.constByName("ast", name)
@@ -380,12 +380,14 @@ func ruleRegexGroupOrder(c *Ctx, rule string) {
 	// the body-parsing call on the capturing path: the call to parse_regexp_disjunction that dominates the naming
 	var body *ssa.Call
 	instrsOf(fn, func(in ssa.Instruction) {
-		if call, ok := in.(*ssa.Call); ok && call.Call.StaticCallee() == dis && instrDominates(call, naming) {
-			body = call
+		if call, ok := in.(*ssa.Call); ok && instrDominates(call, naming) {
+			if sc := call.Call.StaticCallee(); sc != nil && c.isRepoFn(sc) && (sc == dis || c.Reachable(sc)[dis]) {
+				body = call
+			}
 		}
 	})
 	if body == nil {
-		ob.Und("no call to parse_regexp_disjunction dominates the naming of the group")
+		ob.Und("no call that parses the group body (reaches parse_regexp_disjunction) dominates the naming of the group")
 		return
 	}
 	// where is the number defined? a load of the counter (global or field) or a value computed from it
